@@ -422,6 +422,8 @@ def run_check(pid, tier, driver, replay=None):
                 seen_known.setdefault(k['key'], (k, v))
             else:
                 new_viol.append(v)
+        ctx.new_violations = new_viol
+        ctx.known_hits = {key: sum(1 for v in ctx.violations if v.get('finding_key') == key) for key in seen_known}
         for key, (k, v) in seen_known.items():
             lines.append('KNOWN-FINDING: property=%s %s' % (pid, k.get('what', key)))
         if new_viol:
@@ -454,9 +456,10 @@ def run_check(pid, tier, driver, replay=None):
     for ln in lines:
         print(ln)
     ev = sum(g['evaluations'] for g in ctx.groups.values())
-    print('%s %s: proofs %d/%d, %d evaluations, %d disagreements, %d violations, %.1fs -> exit %d' % (
+    n_new = len(getattr(ctx, 'new_violations', ctx.violations))
+    print('%s %s: proofs %d/%d, %d evaluations, %d disagreements, %d violations (+%d known-finding hits), %.1fs -> exit %d' % (
         pid, tier, proof['discharged'], proof['obligations'], ev, len(ctx.disagreements),
-        len(ctx.violations), time.time() - t0, exit_code))
+        n_new, len(ctx.violations) - n_new, time.time() - t0, exit_code))
     return exit_code
 
 
@@ -493,6 +496,7 @@ def write_evidence(ctx, proof, wall, exit_code):
         'groups': groups,
         'traces_validated_against_impl': ev,
         'disagreements': len(ctx.disagreements),
+        'known_finding_hits': getattr(ctx, 'known_hits', {}),
         'canaries_planted': ctx.canaries,
         'canaries_caught': ctx.canaries_caught,
         'coqc_eval_s': round(ctx.coq_s, 1),
@@ -503,7 +507,7 @@ def write_evidence(ctx, proof, wall, exit_code):
         'coverage': cov,
         'assumptions': getattr(ctx, 'assumptions', []),
         'wall_s': round(wall, 2),
-        'violations': len(ctx.violations) + (1 if exit_code and not ctx.violations else 0),
+        'violations': len(getattr(ctx, 'new_violations', ctx.violations)) + (1 if exit_code and not getattr(ctx, 'new_violations', ctx.violations) else 0),
     }
     os.makedirs(os.path.join(VERIF, 'evidence'), exist_ok=True)
     with open(os.path.join(VERIF, 'evidence', ctx.pid + '.json'), 'w') as f:
